@@ -183,17 +183,36 @@ func (x *Exec) schemaCall(st *State, method string, recv Value, bufv Value, in s
 		st.assume(And(Le(Len(u1), Len(u0)), Eq(Drop(u0, Sub(Len(u0), Len(u1))), u1)))
 		// re
 		st.assume(Implies(errNil, And(Eq(u0, Cat(W(mv1), u1)), canon(mv1), encok(mv1))))
-		// rt: instantiate the ghosts by matching the head of the current buffer
+		st.assume(Implies(errNil, Le(Add(Len(u1), App("minwidth", SInt, tag)), Len(u0))))
+		// rt: ghosts (v, r) given explicitly by the caller's contract, or matched against the head of the buffer
+		var gv, gr *Term
+		if x.fc != nil && in != nil {
+			for _, cg := range x.fc.CallGhost {
+				if cg.Callee == "Decode" && cg.Ordinal == n && (cg.Behavior == "" || cg.Behavior == x.run) {
+					ev := x.evaluator(st)
+					ev.extra = st.lenv
+					if e, ok := cg.Binds["v"]; ok {
+						gv, _ = ev.term(e)
+					}
+					if e, ok := cg.Binds["r"]; ok {
+						gr, _ = ev.term(e)
+					}
+				}
+			}
+		}
 		segs := Segs(u0)
-		if len(segs) > 0 && segs[0].Op == "app" && segs[0].Name == "Wd" && Same(segs[0].Args[0], tag) {
-			v := segs[0].Args[1]
-			r := Cat(segs[1:]...)
-			st.assume(Implies(canon(v), And(errNil, Eq(u1, r), Eq(mv1, v))))
-			if st.implied(canon(v)) == 1 {
-				st.mut(buf).Seq = r
-				st.mut(o).MV = v
-				mv1 = v
-				rec.MVPost = v
+		if gv == nil && len(segs) > 0 && segs[0].Op == "app" && segs[0].Name == "Wd" && Same(segs[0].Args[0], tag) {
+			gv = segs[0].Args[1]
+			gr = Cat(segs[1:]...)
+		}
+		if gv != nil && gr != nil {
+			hyp := And(canon(gv), Eq(u0, Cat(W(gv), gr)))
+			st.assume(Implies(hyp, And(errNil, Eq(u1, gr), Eq(mv1, gv))))
+			if st.implied(canon(gv)) == 1 && Same(u0, Cat(W(gv), gr)) {
+				st.mut(buf).Seq = gr
+				st.mut(o).MV = gv
+				mv1 = gv
+				rec.MVPost = gv
 				if hasErr {
 					st.assume(errNil)
 				}
